@@ -415,6 +415,24 @@ def _library(tk: str) -> Iterable[dict]:
     bs[3].out("out", bs[3].op(z, bs[3].recv(1, 1), bs[3].recv(2, 1)))
     yield _prog(f"lib/diamond{sfx}", bs, tk)
 
+    # two dependency paths of different length into one send: rank 2 receives
+    # in two consecutive rounds and its send must wait for the later one
+    bs = [_B() for _ in range(4)]
+    x = bs[0].inp()
+    o = bs[0].op(x)
+    o = bs[0].hold(bs[0].op(x), 1, 1, o)
+    o = bs[0].hold(bs[0].op(x), 2, 1, o)
+    bs[0].out("out", o)
+    y = bs[1].inp()
+    rv = bs[1].recv(0, 1)
+    bs[1].out("out", bs[1].hold(bs[1].op(y, rv), 2, 1, bs[1].op(rv)))
+    z = bs[2].inp()
+    short, long_ = bs[2].recv(0, 1), bs[2].recv(1, 1)
+    bs[2].out("out", bs[2].hold(bs[2].op(short, long_), 3, 1, bs[2].op(z, short)))
+    w = bs[3].inp()
+    bs[3].out("out", bs[3].op(w, bs[3].recv(2, 1)))
+    yield _prog(f"lib/uneven_paths{sfx}", bs, tk)
+
     # two ranks talk, a third one only computes
     b0, b1, b2 = _B(), _B(), _B()
     x = b0.inp()
